@@ -36,6 +36,20 @@ def gen_hex(ctx):
             ctx.count("hex.dec.valid")
         want = r.choice([ln, ln, ln, max(0, ln - 1), ln + 1, len(s) // 2, (len(s) + 1) // 2, 0])
         cases.append("unhexify %s %d" % (hx(s), want))
+    # raw blocks without a terminator: unhexify converts "2*len characters from in" and may not look
+    # at in[2*len]; blocks of exactly 2*len characters (valid, or with a bad / NUL character inside),
+    # longer blocks, len = 0 on an empty block.  (A block shorter than 2*len without a NUL inside is a
+    # caller error and is not generated.)
+    for _ in range(n // 3):
+        ln = r.randrange(0, 12)
+        s = bytearray(r.choice(hexd) for _ in range(2 * ln + r.choice([0, 0, 0, 1, 2, 5])))
+        kind = r.randrange(5)
+        if kind == 0 and ln:
+            s[r.randrange(2 * ln)] = r.choice(near)
+        elif kind == 1 and ln:
+            s[r.randrange(2 * ln)] = 0
+        ctx.count("hex.dec.raw-block")
+        cases.append("unhexraw %s %d" % (hx(s), ln))
     return cases
 
 
@@ -56,7 +70,7 @@ def check_hex(ctx):
     spec, _ = vlib.run_sharded(mexe, ["spec " + c for c in cases])
     vlib.tri_compare(ctx, sub, cases, impl, model, spec)
     ctx.record(sub, cases, set(zip(cases, impl)),
-               "hexify on all byte values / lengths 0..1000; unhexify on valid (both cases), truncated, bad-char-at-every-position strings with len below/at/above strlen/2; non-trivial = distinct (case, result)",
+               "hexify on all byte values / lengths 0..1000; unhexify on valid (both cases), truncated, bad-char-at-every-position strings with len below/at/above strlen/2; unterminated blocks of exactly 2*len characters; non-trivial = distinct (case, result)",
                samples=[cases[0][:80], cases[-1]])
 
 
